@@ -224,8 +224,154 @@ fn shared_reference_scenario(seed: u64) -> bool {
     }
 }
 
+// ------------------------------------------------------------------------------------------
+// C14, memory safety: single-threaded histories of every generator type under Miri. A panic is
+// caught by the native simulator; what only Miri sees is undefined behaviour that does NOT panic
+// (an unchecked index one past a buffer, a misaligned or dangling raw-pointer access, an
+// uninitialised read) - exactly what "indexes out of bounds" means once indexing is unchecked.
+// usage: rngmiri c14 <first seed> <count>
+// ------------------------------------------------------------------------------------------
+
+/// a counting byte source for from_rng / try_from_rng
+struct Counter(u64);
+impl RngCore for Counter {
+    fn next_u32(&mut self) -> u32 {
+        self.next_u64() as u32
+    }
+    fn next_u64(&mut self) -> u64 {
+        self.0 = self.0.wrapping_add(0x9e37_79b9_7f4a_7c15);
+        prng::h2(self.0, 7)
+    }
+    fn fill_bytes(&mut self, dest: &mut [u8]) {
+        for c in dest.chunks_mut(8) {
+            let v = self.next_u64().to_le_bytes();
+            c.copy_from_slice(&v[..c.len()]);
+        }
+    }
+}
+
+fn history<R: RngCore + SeedableRng + Clone>(rng: &mut Prng, block_bytes: usize, d: &mut Digest) {
+    let mut g = match rng.below(4) {
+        0 => {
+            let mut s = R::Seed::default();
+            let pat = rng.below(3);
+            for (i, b) in s.as_mut().iter_mut().enumerate() {
+                *b = match pat {
+                    0 => 0,
+                    1 => 0xff,
+                    _ => (i as u8).wrapping_mul(37) ^ (rng.u64() as u8),
+                };
+            }
+            R::from_seed(s)
+        }
+        1 => R::seed_from_u64(rng.edge_u64()),
+        2 => R::from_rng(&mut Counter(rng.u64())),
+        _ => R::try_from_rng(&mut Counter(rng.u64())).expect("infallible source"),
+    };
+    // walk to a position near the end of a block
+    let words = (block_bytes / 4).max(2) as u64;
+    for _ in 0..rng.below(words + 2) {
+        d.u64(g.next_u32() as u64);
+    }
+    for _ in 0..rng.range(4, 14) {
+        match rng.below(6) {
+            0 => d.u64(g.next_u32() as u64),
+            1 => d.u64(g.next_u64()),
+            2 => {
+                let mut c = g.clone();
+                d.u64(c.next_u64());
+                g.clone_from(&c);
+            }
+            _ => {
+                let bb = block_bytes as u64;
+                let n = match rng.below(5) {
+                    0 => rng.below(10),
+                    1 => rng.range(bb.saturating_sub(5), bb + 9),
+                    2 => 2 * bb + rng.below(9),
+                    3 => 0,
+                    _ => rng.below(bb + 1),
+                } as usize;
+                // destination at every offset from an aligned allocation
+                let off = rng.below(16) as usize;
+                let mut buf = vec![0xA5u8; n + 16];
+                g.fill_bytes(&mut buf[off..off + n]);
+                d.bytes(&buf[off..off + n]);
+            }
+        }
+    }
+}
+
+macro_rules! jumps {
+    ($t:ty, $rng:expr, $d:expr) => {{
+        let mut g = <$t>::seed_from_u64($rng.u64());
+        g.jump();
+        $d.u64(g.next_u64());
+        g.long_jump();
+        $d.u64(g.next_u64());
+    }};
+}
+
+fn c14_scenario(seed: u64) -> u64 {
+    use rand_xoshiro::*;
+    let mut rng = Prng::new(prng::h2(seed, 0xC14));
+    let mut d = Digest::default();
+    // four of the twenty types per scenario, rotating with the seed
+    for k in 0..4 {
+        match (seed * 4 + k) % 20 {
+            0 => history::<SplitMix64>(&mut rng, 8, &mut d),
+            1 => history::<Xoroshiro64Star>(&mut rng, 8, &mut d),
+            2 => history::<Xoroshiro64StarStar>(&mut rng, 8, &mut d),
+            3 => history::<Xoroshiro128Plus>(&mut rng, 8, &mut d),
+            4 => history::<Xoroshiro128PlusPlus>(&mut rng, 8, &mut d),
+            5 => history::<Xoroshiro128StarStar>(&mut rng, 8, &mut d),
+            6 => history::<Xoshiro128Plus>(&mut rng, 8, &mut d),
+            7 => history::<Xoshiro128PlusPlus>(&mut rng, 8, &mut d),
+            8 => history::<Xoshiro128StarStar>(&mut rng, 8, &mut d),
+            9 => history::<Xoshiro256Plus>(&mut rng, 8, &mut d),
+            10 => history::<Xoshiro256PlusPlus>(&mut rng, 8, &mut d),
+            11 => history::<Xoshiro256StarStar>(&mut rng, 8, &mut d),
+            12 => history::<Xoshiro512Plus>(&mut rng, 8, &mut d),
+            13 => history::<Xoshiro512PlusPlus>(&mut rng, 8, &mut d),
+            14 => history::<Xoshiro512StarStar>(&mut rng, 8, &mut d),
+            15 => history::<rand_xorshift::XorShiftRng>(&mut rng, 8, &mut d),
+            16 => history::<rand_hc::Hc128Rng>(&mut rng, 64, &mut d),
+            17 => history::<rand_isaac::IsaacRng>(&mut rng, 1024, &mut d),
+            18 => history::<rand_isaac::Isaac64Rng>(&mut rng, 2048, &mut d),
+            _ => {
+                // JitterRng over a private scripted clock: one or two collections, halves, a clone
+                let mut j = rand_jitter::JitterRng::new_with_timer(clock(rng.u64()));
+                j.set_rounds(rng.range(1, 2) as u8);
+                d.u64(j.next_u32() as u64);
+                d.u64(j.next_u32() as u64);
+                let mut c = j.clone();
+                let mut b = [0u8; 11];
+                c.fill_bytes(&mut b[rng.below(3) as usize..]);
+                d.bytes(&b);
+                d.u64(j.timer_stats(true) as u64);
+            }
+        }
+    }
+    match seed % 5 {
+        0 => jumps!(Xoshiro256PlusPlus, rng, d),
+        1 => jumps!(Xoshiro512StarStar, rng, d),
+        2 => jumps!(Xoroshiro128PlusPlus, rng, d),
+        3 => jumps!(Xoshiro128StarStar, rng, d),
+        _ => jumps!(Xoshiro256Plus, rng, d),
+    }
+    d.finish()
+}
+
 fn main() {
     let args: Vec<String> = std::env::args().collect();
+    if args.get(1).map(|s| s.as_str()) == Some("c14") {
+        let first: u64 = args.get(2).and_then(|s| s.parse().ok()).unwrap_or(0);
+        let count: u64 = args.get(3).and_then(|s| s.parse().ok()).unwrap_or(5);
+        for s in first..first + count {
+            let dg = c14_scenario(s);
+            println!("ok c14 scenario_seed={} digest={:#x}", s, dg);
+        }
+        return;
+    }
     let seed: u64 = args.get(1).and_then(|s| s.parse().ok()).unwrap_or(1);
     if seed % 4 == 3 {
         if shared_reference_scenario(seed) {
